@@ -4,7 +4,7 @@ import ast
 from ..core import sym
 from ..core.expand import u, call_name, get_arg, bind_args, Expander, is_marker, phi_alternatives
 from ..core.loader import Inconclusive, const_value, parents
-from .common import (returns, all_nodes, callee, strip_shape, calls_in, guards_of, stmt_of, kw, find_assignments, in_loop)
+from .common import (element_of, canon_calls, guard_dnf, returns, all_nodes, callee, strip_shape, calls_in, guards_of, stmt_of, kw, find_assignments, in_loop)
 
 EXPLANATION = (
     "Decided: D1 ownership tests (_find_location, _create_tile) are conjunctions lon >= west, lat >= south, lon < east, "
@@ -43,12 +43,18 @@ def _conjuncts(e):
 
 def call_name_local(c):
     f = c.func
-    return f.attr if isinstance(f, ast.Attribute) else (f.id if isinstance(f, ast.Name) else None)
+    return f.attr if isinstance(f, ast.Attribute) else (f.id.split('.')[-1] if isinstance(f, ast.Name) else None)
 
 
 def _ownership(ck, f, expr, roles, rule):
     """roles: {'west': text-of-west-expr, ...}; check the four half-open comparisons"""
     o = ck.ob(rule, f, expr, expr)
+    # temporaries holding parts of the conjunction are looked through; the coordinates and the bound objects stay symbolic
+    keep = set(f.params) | {t_.split('.')[0].split('[')[0] for t_ in roles.values()}
+    try:
+        expr = Expander(ck.prog, f, keep=keep, expand_self=False).expand(expr)
+    except Exception:
+        pass
     cj = _conjuncts(expr)
     got = {}
     probs = []
@@ -200,56 +206,55 @@ def rule_split(ck):
     f = P.func(R + '_create_tile')
     rec = [c for c in all_nodes(f) if isinstance(c, ast.Call) and callee(P, f, c) == f.qualname]
     o = ck.ob('C17-D3.predicate', f, 'split iff count > threshold and depth < zoom', f.node)
-    if not rec or not guards_of(rec[0], f.node):
-        o.fail('children are issued unconditionally')
-        return
-    t, pol = guards_of(rec[0], f.node)[0]
     qk, thr, zoom = f.positional_params[0], f.positional_params[1], f.positional_params[2]
-    cj = [c for c in (t.values if isinstance(t, ast.BoolOp) and isinstance(t.op, ast.And) else [t])]
-    # integer reading: num_eqs > thr == num_eqs >= thr+1 ; len(q) < zoom == len(q) <= zoom-1
-    want = {N.nf('num_eqs > %s' % thr).skey(): 'count', N.nf('len(%s) < %s' % (qk, zoom)).skey(): 'depth'}
-    alt = {N.nf('num_eqs >= %s + 1' % thr).skey(): 'count', N.nf('len(%s) <= %s - 1' % (qk, zoom)).skey(): 'depth'}
-    got = set()
-    unknown = []
-    for c in cj:
-        k = N.nf(c).skey()
-        if k in want:
-            got.add(want[k])
-        elif k in alt:
-            got.add(alt[k])
-        else:
-            unknown.append(u(c))
-    if pol and got == {'count', 'depth'} and not unknown and len(cj) == 2:
+
+    def lit(atom, pol):
+        e = atom if pol else ast.UnaryOp(op=ast.Not(), operand=atom)
+        return N.nf(e).skey()
+
+    def dnf_keys(node):
+        return {frozenset(lit(a_, p_) for a_, p_ in conj) for conj in guard_dnf(node, f.node)}
+    # integer reading: num_eqs > thr == num_eqs >= thr+1 ; len(q) < zoom == len(q) <= zoom-1 (same normal form)
+    A = ast.parse('num_eqs > %s' % thr, mode='eval').body
+    B = ast.parse('len(%s) < %s' % (qk, zoom), mode='eval').body
+    A2 = ast.parse('num_eqs >= %s + 1' % thr, mode='eval').body
+    B2 = ast.parse('len(%s) <= %s - 1' % (qk, zoom), mode='eval').body
+    want_split = [{frozenset({lit(a_, True), lit(b_, True)})} for a_ in (A, A2) for b_ in (B, B2)]
+    want_leaf = [{frozenset({lit(a_, False)}), frozenset({lit(b_, False)})} for a_ in (A, A2) for b_ in (B, B2)]
+    if not rec:
+        o.fail('no recursive call: cells are never split')
+        return
+    got = dnf_keys(rec[0])
+    if got in want_split:
         o.ok('num_eqs > threshold and len(quadkey) < zoom')
     else:
-        o.fail('the split condition is `%s%s`; a cell must be split iff it holds more than `threshold` events and is above the maximum zoom: '
-               '>= splits a cell at the threshold, <= exceeds the maximum zoom%s' % ('' if pol else 'not ', u(t), ('; unexpected: ' + ', '.join(unknown)) if unknown else ''))
-    # leaf branch records the quadkey and its count once
-    ifn = t
-    node = None
-    for n in all_nodes(f):
-        if isinstance(n, ast.If) and n.test is t:
-            node = n
-    o = ck.ob('C17-D3.leaf', f, 'leaf recorded once', node or f.node)
-    ok = False
-    if node is not None and node.orelse:
-        apps = [x for s in node.orelse for x in ast.walk(s) if isinstance(x, ast.Call) and isinstance(x.func, ast.Attribute) and x.func.attr == 'append']
-        ok = sorted(u(a) for a in apps) == sorted(['qk.append(%s)' % qk, 'num.append(num_eqs)'])
-        body_apps = [x for s in node.body for x in ast.walk(s) if isinstance(x, ast.Call) and isinstance(x.func, ast.Attribute) and x.func.attr == 'append']
-        ok = ok and not body_apps
+        conds = ' or '.join(' and '.join(('' if p_ else 'not ') + u(a_) for a_, p_ in conj) for conj in guard_dnf(rec[0], f.node)) or 'no condition'
+        o.fail('the split condition is `%s`; a cell must be split iff it holds more than `threshold` events and is above the maximum zoom: '
+               '>= splits a cell at the threshold, <= exceeds the maximum zoom' % conds)
+    # leaf: the quadkey and its count are recorded once, exactly when the cell is not split
+    o = ck.ob('C17-D3.leaf', f, 'leaf recorded once', f.node)
+    apps = [x for x in all_nodes(f) if isinstance(x, ast.Call) and isinstance(x.func, ast.Attribute) and x.func.attr == 'append']
+    ok = sorted(u(a_) for a_ in apps) == sorted(['qk.append(%s)' % qk, 'num.append(num_eqs)']) and all(dnf_keys(a_) in want_leaf for a_ in apps)
     (o.ok() if ok else o.fail('a cell that is not split is not recorded exactly once (or a split cell is recorded as well)'))
     g = P.func(R + '_create_tile_fix_len')
     rec = [c for c in all_nodes(g) if isinstance(c, ast.Call) and callee(P, g, c) == g.qualname]
     o = ck.ob('C17-D3.fixlen', g, 'split iff len < zoom', g.node)
-    if rec and guards_of(rec[0], g.node):
-        t, pol = guards_of(rec[0], g.node)[0]
-        k = N.nf(t).skey()
-        ok = pol and k in (N.nf('len(%s) < %s' % (g.positional_params[0], g.positional_params[1])).skey(),
-                           N.nf('len(%s) <= %s - 1' % (g.positional_params[0], g.positional_params[1])).skey())
-        (o.ok() if ok else o.fail('single-resolution split condition is `%s`, must be len(quadkey) < zoom' % u(t)))
+    def litg(atom, pol):
+        e = atom if pol else ast.UnaryOp(op=ast.Not(), operand=atom)
+        return N.nf(e).skey()
+
+    def dnf_keys_g(node):
+        return {frozenset(litg(a_, p_) for a_, p_ in conj) for conj in guard_dnf(node, g.node)}
+    Bs = [ast.parse(t_ % (g.positional_params[0], g.positional_params[1]), mode='eval').body for t_ in ('len(%s) < %s', 'len(%s) <= %s - 1')]
+    if rec and guard_dnf(rec[0], g.node) != [[]]:
+        got = dnf_keys_g(rec[0])
+        ok = any(got == {frozenset({litg(b_, True)})} for b_ in Bs)
+        conds = ' or '.join(' and '.join(('' if p_ else 'not ') + u(a_) for a_, p_ in conj) for conj in guard_dnf(rec[0], g.node))
+        (o.ok() if ok else o.fail('single-resolution split condition is `%s`, must be len(quadkey) < zoom' % conds))
         leaf = [x for x in all_nodes(g) if isinstance(x, ast.Call) and u(x) == 'qk.append(%s)' % g.positional_params[0]]
         oo = ck.ob('C17-D3.fixleaf', g, 'leaf recorded', g.node)
-        (oo.ok() if len(leaf) == 1 and guards_of(leaf[0], g.node) and guards_of(leaf[0], g.node)[0][1] is False else oo.fail('cells at the target zoom are not recorded exactly once'))
+        (oo.ok() if len(leaf) == 1 and any(dnf_keys_g(leaf[0]) == {frozenset({litg(b_, False)})} for b_ in Bs)
+         else oo.fail('cells at the target zoom are not recorded exactly once'))
     else:
         o.fail('children issued unconditionally')
 
@@ -262,60 +267,50 @@ def rule_bounds(ck):
     r = [x for x in returns(f) if x.value is not None]
     e = ex.expand(r[0].value) if r else None
     o = ck.ob('C17-D4.rows', f, 'bounds rows = [west, south, east, north] of quadk[i]', r[0] if r else f.node)
-    apps = {}
-    exi = Expander(P, f, inline_depth=1, keep={qk} if False else set())
-    for n in all_nodes(f):
-        if isinstance(n, ast.Call) and isinstance(n.func, ast.Attribute) and n.func.attr == 'append' and isinstance(n.func.value, ast.Name):
-            a = n.args[0]
-            apps[n.func.value.id] = u(exi.expand(a)).replace('__index__(builtins.len(%s))' % f.positional_params[0], 'i')
     qk = f.positional_params[0]
-    tmpl = 'mercantile.bounds(mercantile.quadkey_to_tile(%s[i])).%%s' % qk
-    apps = {k_: v_.replace('numpy.asarray(%s)' % qk, qk) for k_, v_ in apps.items()}
-    lists = {}
-    for name, txt in apps.items():
-        for side in ('west', 'south', 'east', 'north'):
-            if txt == tmpl % side:
-                lists[name] = side
-    # column order from the column_stack calls
+    # every column of the result, as the generic element of its list: must be <side> of the tile of the *same* quadkey
     order = []
-    def flat(x):
-        x = strip_shape(x)
-        if isinstance(x, ast.Call) and call_name(x) == 'numpy.column_stack' and x.args and isinstance(x.args[0], (ast.Tuple, ast.List)):
+    probs = []
+
+    def flat2(x, depth=0):
+        x0 = x
+        if isinstance(x, ast.Call) and P.canon(f, x.func) == 'numpy.column_stack' and x.args and isinstance(x.args[0], (ast.Tuple, ast.List)):
             for y in x.args[0].elts:
-                flat(y)
-        elif isinstance(x, ast.Name):
-            order.append(lists.get(x.id, '?' + x.id))
-        elif isinstance(x, ast.List) and not x.elts:
-            pass
-        else:
-            order.append('?')
-    # use unexpanded: follow variables manually
-    env = {a.targets[0].id: a.value for a in all_nodes(f) if isinstance(a, ast.Assign) and isinstance(a.targets[0], ast.Name)}
-    def flat2(x):
-        if isinstance(x, ast.Name) and x.id in lists:
-            order.append(lists[x.id]); return
-        if isinstance(x, ast.Name) and x.id in env:
-            return flat2(env[x.id])
-        if isinstance(x, ast.Call) and (P.canon(f, x.func) in ('numpy.column_stack',)) and x.args and isinstance(x.args[0], (ast.Tuple, ast.List)):
-            for y in x.args[0].elts:
-                flat2(y)
+                flat2(y, depth + 1)
             return
         if isinstance(x, ast.Call) and P.canon(f, x.func) in ('numpy.array', 'numpy.asarray') and x.args:
-            return flat2(x.args[0])
+            return flat2(x.args[0], depth + 1)
+        if isinstance(x, ast.Name) and depth < 8:
+            defs = [a_ for a_ in find_assignments(f, x.id) if isinstance(a_, ast.Assign)]
+            if len(defs) == 1 and isinstance(defs[0].value, ast.Call) and P.canon(f, defs[0].value.func) in ('numpy.column_stack', 'numpy.array', 'numpy.asarray'):
+                return flat2(defs[0].value, depth + 1)
+        el = element_of(P, f, x0)
+        t = u(canon_calls(P, f, el))
+        t = t.replace('numpy.asarray(%s)' % qk, qk)
+        for side in ('west', 'south', 'east', 'north'):
+            if t == 'mercantile.bounds(mercantile.quadkey_to_tile(__elem__(%s))).%s' % (qk, side):
+                order.append(side)
+                return
         order.append('?')
+        probs.append('column `%s` holds `%s`' % (u(x0)[:30], t[:90]))
     if r:
         flat2(r[0].value)
-    loops = [n for n in all_nodes(f) if isinstance(n, ast.For)]
-    okloop = len(loops) == 1 and u(loops[0].iter) == 'range(len(%s))' % qk
-    if order == ['west', 'south', 'east', 'north'] and len(lists) == 4 and okloop:
+    if order == ['west', 'south', 'east', 'north']:
         o.ok()
     else:
-        o.fail('bounds columns are %s (per-list sources %s); every row must be [west, south, east, north] of the same quadkey quadk[i]' % (order, apps))
+        o.fail('bounds columns are %s (%s); every row must be [west, south, east, north] of the same quadkey quadk[i]' % (order, '; '.join(probs)))
     # consumers
     g = P.func(Q + 'get_cell_area')
     o = ck.ob('C17-D4.area', g, 'area from (lon1, lat1, lon2, lat2) = bounds row', g.node)
-    txt = ' '.join(u(s) for s in g.node.body)
-    (o.ok() if 'geographical_area_from_bounds(bb[0], bb[1], bb[2], bb[3]) for bb in self.bounds' in txt else o.fail('cell areas are not computed from the four bounds of each cell in order'))
+    areas = [a_ for a_ in all_nodes(g) if isinstance(a_, ast.Assign) and isinstance(a_.targets[0], ast.Attribute) and a_.targets[0].attr == 'cell_area']
+    good = False
+    for a_ in areas:
+        if isinstance(a_.value, ast.List) and not a_.value.elts:
+            continue
+        el = element_of(P, g, a_.value)
+        if u(el).replace(' ', '') == 'geographical_area_from_bounds(__elem__(self.bounds)[0],__elem__(self.bounds)[1],__elem__(self.bounds)[2],__elem__(self.bounds)[3])':
+            good = True
+    (o.ok() if good else o.fail('cell areas are not computed from the four bounds of each cell in order'))
     b = P.func(Q + 'get_bbox')
     r = [x for x in returns(b) if x.value is not None]
     o = ck.ob('C17-D4.bbox', b, r[0].value if r else 'bbox', r[0] if r else b.node)
@@ -355,7 +350,7 @@ def rule_bounds(ck):
          o.fail('`%s` is returned without deriving from the bounds test' % u(r.value)))
     # get_index_of goes through _find_location for every point
     o = ck.ob('C17-D4.each', gi, 'every point is located by _find_location', gi.node)
-    calls = [n for n in all_nodes(gi) if isinstance(n, ast.Call) and u(n.func) == 'self._find_location']
+    calls = [n for n in all_nodes(gi) if isinstance(n, ast.Call) and callee(P, gi, n) == Q + '_find_location']
     ok = len(calls) == 2 and any(u(c.args[0]) == 'lons[i]' and u(c.args[1]) == 'lats[i]' for c in calls) and any(u(c.args[0]) == 'lons' and u(c.args[1]) == 'lats' for c in calls)
     lp = [n for n in all_nodes(gi) if isinstance(n, ast.For)]
     ok = ok and len(lp) == 1 and u(lp[0].iter) == 'range(len(lons))'
